@@ -10,4 +10,9 @@ require (
 	golang.org/x/oauth2 v0.6.0
 )
 
+require (
+	github.com/boombuler/barcode v1.0.1 // indirect
+	github.com/friendsofgo/errors v0.9.2 // indirect
+)
+
 replace github.com/volatiletech/authboss/v3 => /repo
